@@ -164,6 +164,12 @@ Report(cycles, seq, total, frac) ==
   /\ lostSince' = 0 /\ rlSince' = 0
   /\ UNCHANGED <<S, unrel, first, last, pending, negRun, delivered, lostTot, cyc, fuzz>>
 
+\* End to end (a client reading over an unreliable transport): a sender that restarts - new SSRC,
+\* sequence numbers starting elsewhere - is followed again after at most buffer size plus one packets.
+RestartE2E(followed, after, s) ==
+  /\ followed /\ after <= s + 1
+  /\ UNCHANGED avars
+
 AInv ==
   /\ \A p \in pending : Fwd(last, p) \in 1..Half
   /\ negRun <= S
